@@ -2,7 +2,8 @@
 //! Oracle of the C07 libFuzzer targets, inside the target process:
 //! * the decoder call runs under `catch_unwind`; a panic becomes the signature `C07:panic:<file>:<normalised msg>`;
 //! * the counting allocator (same file as the `disc` engine uses) bounds the peak heap growth of the call by
-//!   1024*len + 1 MiB and refuses single requests > 256 MiB; an allocation-error hook (nightly feature
+//!   1024*len + 1 MiB and refuses single requests above that bound (reported as peak-over-bound; > 256 MiB as
+//!   single-request-over-cap); an allocation-error hook (nightly feature
 //!   `alloc_error_hook`) panics, so a refused request unwinds instead of aborting and is judged like a panic (`C07:alloc:single-request-over-cap:<decoder>`);
 //! * signatures listed for C07 in /verif/known_findings.json (read once at start-up, `$VERIF_ROOT` honoured) are
 //!   counted and skipped, so a campaign does not stop at a known crash; `VERIF_FUZZ_STRICT=1` disables the allow-list
@@ -68,7 +69,7 @@ pub fn run(target: &'static str, data: &[u8]) {
         return;
     };
     valloc::clear_refused();
-    valloc::set_single_request_cap(SINGLE_REQUEST_CAP);
+    valloc::set_single_request_cap(SINGLE_REQUEST_CAP.min(alloc_bound(bytes.len())));
     valloc::reset_peak();
     let base = valloc::current();
     let r = std::panic::catch_unwind(|| decoders::decode(decoder, bytes));
@@ -78,8 +79,10 @@ pub fn run(target: &'static str, data: &[u8]) {
     let verdict: Option<String> = match r {
         Err(_) => {
             let (file, msg) = guard::take_last_panic().unwrap_or(("?".into(), "?".into()));
-            if refused > 0 {
+            if refused > SINGLE_REQUEST_CAP {
                 Some(format!("C07:alloc:single-request-over-cap:{}", decoder.label()))
+            } else if refused > 0 {
+                Some(format!("C07:alloc:peak-over-bound:{}", decoder.label()))
             } else {
                 Some(guard::panic_signature("C07", &file, &msg))
             }
